@@ -56,6 +56,20 @@ public class VOverrides {
             return tuple(d.digest());
         } catch (Exception e) { throw new RuntimeException(e); }
     }
+    /* the library's CRC32C value of a byte tuple: the four bytes c such that the bit string 1 || data || c (least significant bit of each
+       byte first) is a multiple of the Castagnoli polynomial.  Bit-serial reflected division; the register starts as the polynomial
+       itself, which is what the leading 1 bit leaves behind.  For messages too long for the bit-level definition of Hash.tla, against
+       which it is compared on every short message. */
+    @TLAPlusOperator(identifier = "Crc32cBytes", module = "VPrims", warn = false)
+    public static Value crc32cBytes(final Value m) {
+        byte[] b = bytes(m);
+        int poly = 0x82F63B78, crc = poly;
+        for (byte x : b) {
+            crc ^= (x & 0xff);
+            for (int k = 0; k < 8; k++) crc = (crc >>> 1) ^ ((crc & 1) != 0 ? poly : 0);
+        }
+        return tuple(new byte[] { (byte) crc, (byte) (crc >>> 8), (byte) (crc >>> 16), (byte) (crc >>> 24) });
+    }
     @TLAPlusOperator(identifier = "SHA256HexOfHex", module = "VPrims", warn = false)
     public static Value sha256hex(final Value m) { return sv(hex(md("SHA-256", unhex(str(m))))); }
     @TLAPlusOperator(identifier = "AESEncryptBlock", module = "VPrims", warn = false)
